@@ -24,7 +24,7 @@ def cases(draw, tier):
                 body.append(sl())
             elif r < 6:
                 body.append({'op': 'instant'})
-            elif r < 8:
+            elif r < 8 and not (r == 8):
                 body.append({'op': 'avail', 'i': 0})
             elif r == 9 and depth == 1:
                 # while holding the lock: a short-lived scope whose child also asks for the lock and is
@@ -33,6 +33,13 @@ def cases(draw, tier):
                 body.append({'op': 'until', 'name': 'N%d' % nested[0], 'notif': ['delay', draw(st.sampled_from([0.5, 1]))],
                              'children': [{'name': 'n%d' % nested[0], 'steps': [{'op': 'lock', 'i': 0, 'body': [sl()]}]}],
                              'body': [{'op': 'sleep', 'd': draw(st.sampled_from([0, 0.5, 1, 2]))}]})
+            elif r == 8 and depth == 1:
+                # while holding the lock: a supervised helper that fails (the holder handles the failure)
+                nested[0] += 1
+                body.append({'op': 'scope', 'name': 'N%d' % nested[0], 'catch': draw(st.booleans()),
+                             'children': [{'name': 'n%d' % nested[0], 'steps': [
+                                 {'op': 'sleep', 'd': draw(st.sampled_from([0, 0.5, 1]))}, {'op': 'raise', 'eid': nested[0], 'cls': 'K'}]}],
+                             'body': [{'op': 'sleep', 'd': draw(st.sampled_from([0.5, 1, 2]))}]})
             elif depth < 3:
                 body.append({'op': 'lock', 'i': 0, 'body': hold(depth + 1)})
         return body
@@ -60,7 +67,18 @@ def cases(draw, tier):
     for c in conts:
         if draw(st.integers(0, 4)) == 0:
             c['after'] = draw(st.sampled_from([0.5, 1]))
-    root_blk = {'op': 'scope', 'name': 'S', 'children': conts, 'body': [], 'catch': True}
+    # volatile contenders are closed by the owner when its body (timed to end in a late round of some
+    # time step) and the other contenders are done
+    rbody = []
+    if draw(st.integers(0, 2)) == 0:
+        for c in conts:
+            if draw(st.booleans()):
+                c['volatile'] = True
+        rbody = [{'op': 'sleep', 'd': draw(st.sampled_from([0.5, 1, 1.5, 2, 3]))}] + \
+                [{'op': 'instant'} for _ in range(draw(st.integers(0, 3)))]
+        if draw(st.booleans()):
+            rbody.append({'op': 'raise', 'eid': 900, 'cls': 'V'})      # the owner's body fails: everybody is closed
+    root_blk = {'op': 'scope', 'name': 'S', 'children': conts, 'body': rbody, 'catch': True}
     if draw(st.integers(0, 5)) == 0:
         root_blk['op'] = 'until'
         root_blk['notif'] = ['delay', draw(st.sampled_from([0.5, 1, 2, 3]))] if draw(st.booleans()) else ['flag', 0]
